@@ -123,12 +123,15 @@ def koyama_guard(E):
     """constructor raises ValueError <=> l <= sigma/2 or lp < 4 l^3/(4 l^2 - sigma^2) (overlapping second neighbours)"""
     s = E.real('sigma', pos=True, default=1.0); l = E.real('l', pos=True, default=1.0); lp = E.real('lp', pos=True, default=1.43)
     invalid = E.bor(E.le(l, s / 2.0), E.band(E.bnot(E.le(l, s / 2.0)), E.bnot(E.le(4.0 * l * l * l / (4.0 * l * l - s * s), lp)))) if E.sym else (l <= s / 2.0 or lp < 4.0 * l ** 3 / (4.0 * l * l - s * s))
+    nside = len(E.ctx.side) if E.sym else 0
     try:
         pyPRISM.omega.DiscreteKoyama(sigma=s, l=l, length=10, lp=lp)
         raised = False
     except ValueError:
         raised = True
     E.reachable('guard')
+    # no division of the constructor can hit a zero denominator on this path (else an arithmetic error replaces the ValueError)
+    E.claim_no_singularity('constructor-divisions-defined', since=nside)
     if raised:
         E.claim('ValueError-only-for-invalid-parameters', invalid)
     else:
@@ -160,24 +163,7 @@ def nfjc(E, N):
         return
     E.reachable('nfjc')
     if E.sym:
-        # singular-denominator reachability: every division met in calculate recorded "denominator != 0".
-        # One incremental solver holding only the input assumptions (k>0): `unsat` = that denominator cannot vanish;
-        # the first denominator that can vanish becomes an obligation (its model is replayed on the real code).
-        sv = z3.Solver(); sv.set('timeout', 5000); sv.add(*E.ctx.assumes)
-        bad = None; n = 0
-        for cond in E.ctx.side[nside:]:
-            n += 1
-            sv.push(); sv.add(z3.Not(cond)); r = str(sv.check()); sv.pop()
-            E.stats['queries'] += 1
-            if r != 'unsat':
-                bad = cond; break
-        E.notes.append('denominators examined: %d' % n)
-        saved = (E.ctx.side, E.ctx.axioms)
-        E.ctx.side, E.ctx.axioms = [], []          # the obligation is about k alone
-        try:
-            E.claim('no-singular-denominator-for-k>0', SB(bad) if bad is not None else SB(z3.BoolVal(True)))
-        finally:
-            E.ctx.side, E.ctx.axioms = saved
+        E.claim_no_singularity('no-singular-denominator-for-k>0', since=nside)
     else:
         E.claim_true('finite', bool(_np.all(_np.isfinite(_np.asarray(val, dtype=float)))))
 
